@@ -12,7 +12,14 @@
    - [0 < max]: with MaxOperationCount = 0 the cutter never cuts            (max0_never_drains)
    - forced ticks: a monitor tick never cuts a batch smaller than max         (unforced_never_drains)
    - eventually failure-free: a handler / anchor writer that keeps failing keeps the whole queue
-     (head-of-line blocking; no operation is ever skipped)                     (failing_never_drains) *)
+     (head-of-line blocking; no operation is ever skipped)                     (failing_never_drains)
+
+   F16 (repaired code): a batch whose operations have ALL expired is committed without an anchor write - PrepareTxnFiles
+   returns no anchor string and the writer goes straight to Ack.  [next_ev] follows the program counter, so after such
+   a prepare the thread's next event is EAck, never EAnchor.  Consequences here: the batch is settled at the prepare
+   step (progress), and "the anchor writer is down" alone no longer implies "nothing changes": the hypothesis of the
+   transparency theorems is [cut_fails] (anchor writes fail AND no batch is found entirely expired);
+   [anchor_failure_alone_is_not_enough] is the witness. *)
 From Coq Require Import List ZArith Bool Arith Lia Permutation.
 From SV Require Import Writer.Machine Writer.Invariants Writer.LivenessLemmas.
 Import ListNotations.
@@ -133,14 +140,14 @@ Qed.
 
 (* a tick in which the handler or the anchor write fails at the first cut: nothing changes *)
 Lemma failed_tick_inv max o f s :
-  anchor_fails o -> RInv max s -> wpc s = Idle ->
+  cut_fails o -> RInv max s -> wpc s = Idle ->
   let s' := run max s (tick_events max o f s) in
   queue s' = queue s /\ anchored s' = anchored s /\ discarded s' = discarded s /\
   wpc s' = Idle /\ RInv max s' /\ stuck s' = stuck s /\ accepted s' = accepted s.
 Proof.
   intros Hfail Hi Hpc.
   destruct (tick_run max o f (transparent_inv (queue s) (anchored s) (discarded s)) s) as (Hp & Hpc' & Hi' & Hs & Ha & _).
-  - intros s0 e _ Hp0 He. eapply transparent_step; eassumption.
+  - intros s0 e Hi0 Hp0 He. eapply transparent_step; eassumption.
   - exact Hi.
   - exact Hpc.
   - repeat split.
@@ -150,7 +157,7 @@ Qed.
 
 Theorem failed_tick_transparent max o f q es :
   let s := run max (init q) es in
-  anchor_fails o -> wpc s = Idle ->
+  cut_fails o -> wpc s = Idle ->
   let s' := run max (init q) (es ++ tick_events max o f s) in
   queue s' = queue s /\ anchored s' = anchored s /\ discarded s' = discarded s /\
   wpc s' = Idle /\ stuck s' = stuck s /\ accepted s' = accepted s.
@@ -180,19 +187,69 @@ Qed.
 
 Theorem failed_cut_restores_anchor max s tf cf n ver a1 a2 a3 ex :
   wpc s = AtRemove tf cf n ver ->
+  included (split_batch (fun i => memZ i ex) [] (firstn n (queue s))) <> [] ->   (* F16: else there is no anchor write *)
   let s' := run max s (ERemove :: adds a1 ++ EPrepare true ex :: adds a2 ++ EAnchor false :: adds a3 ++ [ENack]) in
   queue s' = queue s ++ a1 ++ a2 ++ a3 /\ wpc s' = Idle /\ anchored s' = anchored s /\
   discarded s' = discarded s /\ stuck s' = stuck s /\ accepted s' = accepted s ++ a1 ++ a2 ++ a3.
 Proof.
-  intros Hpc. cbv zeta. rewrite run_cons, (step_remove max s tf cf n ver Hpc).
+  intros Hpc Hinc. cbv zeta. rewrite run_cons, (step_remove max s tf cf n ver Hpc).
   rewrite run_app, run_adds, run_cons.
-  rewrite (step_prepare max _ tf cf (firstn n (queue s)) ver true ex) by reflexivity.
+  rewrite (step_prepare max _ tf cf (firstn n (queue s)) ver true ex) by reflexivity. cbv zeta.
+  destruct (included (split_batch (fun i => memZ i ex) [] (firstn n (queue s)))) as [|i0 ir] eqn:Einc; [congruence|].
   rewrite run_app, run_adds, run_cons.
   rewrite (step_anchor max _ tf cf (firstn n (queue s)) ver _ false) by reflexivity.
   rewrite run_app, run_adds, run_cons.
   rewrite (step_nack max _ tf cf (firstn n (queue s))) by reflexivity.
   cbn [run fold_left set_queue set_pc queue wpc anchored discarded accepted stuck].
   rewrite <- !app_assoc. rewrite (app_assoc (firstn n (queue s))), firstn_skipn. repeat split.
+Qed.
+
+(* F16: a cut whose operations have all expired, with client Adds interleaved at every point: no anchor write, the
+   batch is committed; its operations - all of them, in their order - are discarded, nothing is anchored, nothing
+   is re-queued; the operations added meanwhile are in the queue behind what was left.  Holds in every state. *)
+Lemma split_all_expired_eq f : forall l seen,
+  included (split_batch f seen l) = [] -> additional (split_batch f seen l) = [] -> expired_ops (split_batch f seen l) = l.
+Proof.
+  induction l as [|o r IH]; intros seen; cbn [split_batch]; [reflexivity|].
+  destruct (f (q_id o)); cbn [included additional expired_ops].
+  - intros Hi Ha. f_equal. apply IH; assumption.
+  - destruct (memZ (q_sfx o) seen); cbn [included additional expired_ops]; discriminate.
+Qed.
+
+Theorem all_expired_cut_commits_without_anchor max s tf cf n ver a1 a2 ex :
+  wpc s = AtRemove tf cf n ver ->
+  included (split_batch (fun i => memZ i ex) [] (firstn n (queue s))) = [] ->
+  let s' := run max s (ERemove :: adds a1 ++ EPrepare true ex :: adds a2 ++ [EAck]) in
+  queue s' = skipn n (queue s) ++ a1 ++ a2 /\ wpc s' = (if cf then Idle else AtLen tf false) /\
+  anchored s' = anchored s /\ discarded s' = discarded s ++ firstn n (queue s) /\
+  stuck s' = stuck s /\ accepted s' = accepted s ++ a1 ++ a2.
+Proof.
+  intros Hpc Hinc. cbv zeta. rewrite run_cons, (step_remove max s tf cf n ver Hpc).
+  rewrite run_app, run_adds, run_cons.
+  rewrite (step_prepare max _ tf cf (firstn n (queue s)) ver true ex) by reflexivity. cbv zeta.
+  rewrite Hinc.
+  rewrite (split_all_expired_eq _ _ [] Hinc (split_batch_included_nil_additional_nil _ _ Hinc)).
+  rewrite run_app, run_adds, run_cons.
+  rewrite (step_ack max _ tf cf (firstn n (queue s)) ver) by reflexivity.
+  destruct cf; cbn [run fold_left set_queue set_pc queue wpc anchored discarded accepted stuck];
+    rewrite <- !app_assoc; repeat split.
+Qed.
+
+(* after a successful prepare the thread writes an anchor if and only if the handler included an operation *)
+Theorem no_anchor_event_after_all_expired_prepare max o s tf cf b ver :
+  wpc s = AtPrepare tf cf b ver -> o_ok o s = true ->
+  let s' := wstep max s (EPrepare (o_ok o s) (o_expired o s)) in
+  match included (split_batch (fun i => memZ i (o_expired o s)) [] b) with
+  | [] => next_ev o s' = Some EAck /\ anchored s' = anchored s /\
+          Permutation (discarded s') (discarded s ++ b)
+  | _ :: _ => next_ev o s' = Some (EAnchor (o_ok o s')) /\ anchored s' = anchored s /\ discarded s' = discarded s
+  end.
+Proof.
+  intros Hpc Hok. cbv zeta. rewrite (step_prepare max s tf cf b ver _ _ Hpc), Hok. cbv zeta.
+  destruct (included (split_batch (fun i => memZ i (o_expired o s)) [] b)) as [|i0 ir] eqn:Einc.
+  - repeat split. cbn [discarded]. apply Permutation_app_head. apply Permutation_sym.
+    apply split_batch_all_expired_perm. exact Einc.
+  - repeat split.
 Qed.
 
 (* ---------------------------------------------------------------------------------------- *)
@@ -398,7 +455,7 @@ Qed.
 (* a handler / anchor writer that always fails: the queue is kept as it is, for ever *)
 Theorem failing_never_drains max q es l :
   let s := run max (init q) es in
-  wpc s = Idle -> Forall (fun of => anchor_fails (fst of)) l ->
+  wpc s = Idle -> Forall (fun of => cut_fails (fst of)) l ->
   let s' := run max (init q) (es ++ ticks_events max l s) in
   queue s' = queue s /\ anchored s' = anchored s /\ discarded s' = discarded s.
 Proof.
@@ -421,15 +478,23 @@ Definition op (id sfx ver : Z) : qop := {| q_id := id; q_sfx := sfx; q_ty := 2; 
 Definition clean : oracle := {| o_expired := fun _ => [3; 8]; o_ok := fun _ => true |}.
 (* the handler fails *)
 Definition broken : oracle := {| o_expired := fun _ => []; o_ok := fun _ => false |}.
-(* the handler succeeds, the anchor write fails *)
+(* the handler succeeds and finds nothing expired, the anchor write fails *)
 Definition anchor_down : oracle :=
-  {| o_expired := fun _ => [3; 8];
+  {| o_expired := fun _ => [];
+     o_ok := fun s => match wpc s with AtAnchor _ _ _ _ _ => false | _ => true end |}.
+(* the handler succeeds and finds 1, 2, 3 and 8 expired, the anchor write fails *)
+Definition anchor_down_expired : oracle :=
+  {| o_expired := fun _ => [1; 2; 3; 8];
      o_ok := fun s => match wpc s with AtAnchor _ _ _ _ _ => false | _ => true end |}.
 
 Lemma clean_ff : failure_free clean. Proof. intros s. reflexivity. Qed.
-Lemma broken_af : anchor_fails broken. Proof. intros s. destruct (wpc s); exact I || reflexivity. Qed.
-Lemma anchor_down_af : anchor_fails anchor_down.
-Proof. intros s. unfold anchor_down. cbn. destruct (wpc s); exact I || reflexivity. Qed.
+Lemma broken_af : cut_fails broken.
+Proof. intros s. destruct (wpc s); try exact I; try reflexivity. cbn. discriminate. Qed.
+Lemma anchor_down_af : cut_fails anchor_down.
+Proof.
+  intros s. unfold anchor_down. cbn. destruct (wpc s) as [| | | |tf cf b ver| | |]; try exact I; try reflexivity.
+  intros _ Hb. destruct b as [|x r]; [congruence|]. cbn. discriminate.
+Qed.
 
 (* three operations of DID 1 (two are deferred twice), one expired, a protocol-version boundary,
    a client Add in the middle of a tick; the trace stops in the middle of the second tick *)
@@ -482,6 +547,33 @@ Example ex_failures_transparent :
 Proof. vm_compute. reflexivity. Qed.
 
 Definition ex_pre := [(broken, true); (anchor_down, false); (anchor_down, true); (broken, true)].
+
+(* F16: the anchor writer is down, but the handler finds the whole first batch [1;2;3] expired: that batch is committed
+   without an anchor write (discarded), the next cut [4;5] fails at the anchor write and returns to the head.
+   "Every anchor write fails" alone does not keep the queue: this is why [cut_fails] has its second clause. *)
+Example ex_all_expired_batch :
+  let s' := run 3 ex_idle (tick_events 3 anchor_down_expired true ex_idle) in
+  (ids (queue s'), length (anchored s'), ids (discarded s'), wpc s', stuck s',
+   existsb (fun e => match e with EAnchor _ => true | _ => false end)
+           (firstn 6 (tick_events 3 anchor_down_expired true ex_idle)),
+   firstn 6 (tick_events 3 anchor_down_expired true ex_idle))
+  = ([4; 5; 6; 7], 0%nat, [1; 2; 3], Idle, false, false,
+     [ETick true; ELen; EPeek; ERemove; EPrepare true [1; 2; 3; 8]; EAck]).
+Proof. vm_compute. reflexivity. Qed.
+
+Theorem anchor_failure_alone_is_not_enough :
+  ~ (forall max o f q es,
+       let s := run max (init q) es in
+       (forall s0, match wpc s0 with AtAnchor _ _ _ _ _ => o_ok o s0 = false | _ => True end) -> wpc s = Idle ->
+       discarded (run max (init q) (es ++ tick_events max o f s)) = discarded s).
+Proof.
+  intros H.
+  specialize (H 3%nat anchor_down_expired true [] (firstn 7 ex_events)).
+  cbv zeta in H.
+  assert (Hdown : forall s0, match wpc s0 with AtAnchor _ _ _ _ _ => o_ok anchor_down_expired s0 = false | _ => True end).
+  { intros s0. unfold anchor_down_expired. cbn [o_ok]. destruct (wpc s0); try exact I. reflexivity. }
+  specialize (H Hdown eq_refl). vm_compute in H. discriminate H.
+Qed.
 
 Example ex_after_failures_applies :
   all_settled ex_idle
@@ -558,6 +650,9 @@ Print Assumptions tick_progress.
 Print Assumptions failed_tick_transparent.
 Print Assumptions failed_cut_restores_prepare.
 Print Assumptions failed_cut_restores_anchor.
+Print Assumptions all_expired_cut_commits_without_anchor.
+Print Assumptions no_anchor_event_after_all_expired_prepare.
+Print Assumptions anchor_failure_alone_is_not_enough.
 Print Assumptions drain.
 Print Assumptions drain_from_anywhere.
 Print Assumptions drain_bound_accepted.
